@@ -1,6 +1,7 @@
 package main
 
 import (
+	"strings"
 	"bytes"
 	"regexp"
 	"strconv"
@@ -231,7 +232,23 @@ func numbersInRange(b []byte) bool {
 	return true
 }
 
+// what the skip functions make of a text: Unmarshal into a RawMessage is skipWhiteSpace, skipValue and the
+// end-of-input check, and hands the skipped bytes to the destination
+func c05SkipObs(b []byte) []byte {
+	var raw gojson.RawMessage
+	if err := safeCall(func() error { return gojson.Unmarshal(b, &raw) }); err != nil {
+		if strings.HasPrefix(err.Error(), "PANIC") {
+			return []byte("panic")
+		}
+		return []byte("R")
+	}
+	return []byte("A" + strconv.Itoa(len(raw)))
+}
+
 func c05Text(o *Out, b []byte, typed bool) {
+	if len(b) <= 4 || o.Stats["verdict_cases"]%7 == 0 || typed {
+		o.emit("A", "c05.skip", [][]byte{b}, c05SkipObs(b), nil, false)
+	}
 	got := c05Obs(b)
 	want := c05Oracle(b)
 	o.count("verdict_cases", 1)
